@@ -121,3 +121,55 @@ prop(id="C15", vfile="Properties/C15.v",
                               dict(profile="did", seed=seed, n=_sizes(tier, 10, 1000), extra=["-blocks", "10"])],
      rule=FEE_RULE + " || " + AOL_RULE, assumptions=CHAIN_ASSUME,
      partial="the transaction pipeline (baseapp runTx, the ante decorators, x/bank) is SDK code: modelled from its source and checked differentially, not verified")
+
+
+BURN_RULE = ("burn profile: blocks in which the burn address (and, as controls, ordinary accounts) receives coins by MsgSend (1-3 per "
+             "block, two denominations, amounts 0/1/dust/huge), by MsgCreateVestingAccount at the burn address (delayed, end time before/"
+             "after later blocks, then topped up) and as MsgExec inner sends, interleaved with AOL traffic and fee payments; after every "
+             "block the monitor reads, on the implementation alone, the spendable/locked/total balance of the burn address, the supply of "
+             "every denomination, all other balances touched only by the burn, and runs the registered x/crisis invariants; the B lines "
+             "(spendable at the burn address, supply deltas) and T lines (per-transaction balance deltas) are compared with the model")
+prop(id="C07", vfile="Properties/C07.v",
+     runs=lambda tier, seed: [dict(profile="burn", seed=seed, n=_sizes(tier, 30, 2500), extra=["-blocks", str(_sizes(tier, 10, 30))]),
+                              dict(profile="aol", seed=seed, n=_sizes(tier, 10, 500), extra=["-blocks", "10"])],
+     rule=BURN_RULE, assumptions=CHAIN_ASSUME + [
+         "x/bank (balances, supply, delayed vesting locks, SendCoins, SpendableCoins, BurnCoins) is modelled from the pinned SDK source "
+         "(Bank/Model.v) and checked differentially; MsgMultiSend, continuous/periodic vesting and minting by x/mint (inflation is zero "
+         "in the harness genesis) are outside the model; the monitors still observe the implementation under them",
+         "fees_ok: fee denominations are well-formed (the SDK's ante handler rejects others before deduction)"],
+     partial="'the other registered chain invariants' are checked by running the real crisis invariants after every block (monitor), not proved; "
+             "x/bank is modelled, not verified")
+
+
+TOTAL_RULE = ("total profile (by shape, not random): a populated chain built in amino-JSON or direct sign mode with every custom message "
+              "kind, then every query handler with owner in {valid, empty, malformed, upper-case, wrong checksum, 300 bytes, NUL, invalid "
+              "UTF-8} x topic in {stored, empty, absent, 255, 256, 10000 bytes, invalid UTF-8, NUL}, offsets {0,1,2^63,2^64-1}, DIDs/denom "
+              "ids/token ids of the same shapes, and pagination requests with key in {nil, empty, each stored key, absent, below all, above "
+              "all, prefix} x offset {0,1,2,2^64-1} x limit {0,1,2,100,2^63,2^64-1} x count_total x reverse; a recovered panic surfaces as "
+              "ABCI code 111222. keystore profile: 67 key files (valid, wrong password, every parameter absent/zero/negative/huge, short and "
+              "long iv/salt/mac/ciphertext, non-hex, non-JSON, empty) loaded by the real Load and by the model. valid profile: see C16")
+prop(id="C17", vfile="Properties/C17.v",
+     runs=lambda tier, seed: [dict(profile="total", seed=seed, n=_sizes(tier, 2, 40)),
+                              dict(profile="keystore", seed=seed, n=_sizes(tier, 1, 4)),
+                              dict(profile="valid", seed=seed, n=_sizes(tier, 1, 2)),
+                              dict(profile="aol", seed=seed, n=_sizes(tier, 10, 800), extra=["-blocks", "8"]),
+                              dict(profile="did", seed=seed, n=_sizes(tier, 8, 600), extra=["-blocks", "8"]),
+                              dict(profile="pnft", seed=seed, n=_sizes(tier, 8, 600), extra=["-blocks", "8"]),
+                              dict(profile="burn", seed=seed, n=_sizes(tier, 6, 400), extra=["-blocks", "8"])],
+     rule=TOTAL_RULE + " || " + VALID_RULE, assumptions=CHAIN_ASSUME + [
+         "protobuf decoding (generated code) and the gRPC/ABCI plumbing are outside the model: the property starts from bytes that decode",
+         "scrypt/pbkdf2/AES of the key store enter the model as the boolean 'MAC matches'; hex/JSON decoding as booleans 'field decodes'"],
+     partial="paginated queries (Topics, Writers, Denoms) do panic on one request shape inside the SDK's query.Paginate (known finding K2): "
+             "proved as an exact iff instead of 'never'; PNFT single-item queries have no panic branch in the model's types (option), "
+             "their totality is by correspondence only")
+
+
+KS_RULE = ("keystore profile: besides the load cases, a stress run of Save/Load/LoadByAddress from 8 goroutines on one key directory "
+           "with a watchdog (a call that does not return within the deadline is a deadlock); T1 regenerates the mutex program of every "
+           "exported KeyStore method from the source (calls to sibling methods inlined, defers moved to the end)")
+prop(id="C20", vfile="Properties/C20.v",
+     runs=lambda tier, seed: [dict(profile="keystore", seed=seed, n=_sizes(tier, 1, 6))],
+     rule=KS_RULE, assumptions=["sync.RWMutex is modelled as a transition system with writer preference (a pending Lock blocks new RLock), "
+                                "the documented behaviour of Go's implementation"],
+     partial="only the deadlock half of the key-store clause is proved; snapshot isolation of queries and absence of data races are runtime "
+             "properties of the SDK store and the Go memory model: see DESIGN.md")
